@@ -48,6 +48,13 @@ CLAIMED["C05"] = {
     "design": "4/C05",
 }
 
+CLAIMED["C08"] = {
+    "text": "Lean theorems over the export model (environment = function, scopes outermost first): the environment set equation - for every name the child sees the innermost exported binding among the enclosing scopes, else nothing if unexported, else the dotenv entry (never shadowing the environment), else just's own value - for chains of any depth; the scope being defined never reaches the child; constants are never exported; plus the proved corner where a repeated removal hides an exported parameter (recorded as a known finding). Correspondence: random configurations (exports over colliding names in root, submodule and a sibling module on the same command line, `set export`, unexports, $/plain parameters shadowing variables, dotenv collisions) with the child environment dumped at 6 sites and compared with the statement written directly and with the Lean model.",
+    "note": "Trusted: Lean kernel; export model (tied by the differential run); std::process::Command/OS environment passing; vsh environment dump. `set export`/`unexport` of the owning module apply to the whole chain as in the code. Child-module unexport of a parent-exported name is not generated (statement indeterminate).",
+    "technique": "Lean 4 proof (induction over the scope chain) + differential correspondence of child environments",
+    "design": "4/C08",
+}
+
 PENDING = "check not built yet in this session (see DESIGN.md build order); no claim is made"
 
 
